@@ -15,6 +15,7 @@ namespace Gsd.Driver.C01
 open Gsd Gsd.Proto Gsd.Driver Gsd.Pipeline
 
 inductive Item where
+  | free (parsers qsize : Nat)             -- free-running mode marker (first item)
   | arrive (ds : List (Dp Float))
   | flush (shards : Option (List Nat))     -- none = all
 
@@ -34,6 +35,7 @@ def parseOracle : List String → Option (AList Key Nat)
 
 def parseItem (toks : List String) : Option Item :=
   match toks with
+  | ["r", p, q] => do pure (Item.free (← p.toNat?) (← q.toNat?))
   | "a" :: rest => (parseDps rest).map Item.arrive
   | ["f", "*"] => some (.flush none)
   | "f" :: rest => (rest.mapM String.toNat?).map (fun l => Item.flush (some l.eraseDups))
@@ -49,6 +51,8 @@ def parseCase (line : String) : Option Case := do
     let items ← (items.filter (· ≠ [])).mapM parseItem
     pure { n := n, expireAll := ex, h := h, items := items }
   | _ => none
+
+def dedupS (l : List String) : List String := l.foldl (fun acc x => if x ∈ acc then acc else acc ++ [x]) []
 
 def insertSorted (x : Float) : List Float → List Float
   | [] => [x]
@@ -70,16 +74,43 @@ def actionsOf (c : Case) (it : Item) : List (Action Float) :=
   | .flush sel =>
     let shards := match sel with | none => List.range c.n | some l => l
     shards.map (fun i => Action.flushShard i (fun _ => c.expireAll))
+  | .free _ _ => []
+
+def isFree (c : Case) : Bool := match c.items.head? with | some (.free _ _) => true | _ => false
+
+/-- totals per series over a list of maps (the free-running mode's canonical output) -/
+def totalsOf (ms : List (MM Float)) : String :=
+  let ckeys := dedupS (ms.flatMap (fun m => m.counters.map (fun e => e.1.1 ++ " " ++ e.1.2)))
+  let tkeys := dedupS (ms.flatMap (fun m => m.timers.map (fun e => e.1.1 ++ " " ++ e.1.2)))
+  let skeys := dedupS (ms.flatMap (fun m => m.sets.map (fun e => e.1.1 ++ " " ++ e.1.2)))
+  let cs := ckeys.map (fun ks =>
+    let tot := (ms.flatMap (fun m => (m.counters.filter (fun e => e.1.1 ++ " " ++ e.1.2 == ks)).map (·.2.value))).foldl (· + ·) 0
+    s!"c {ks} {tot}")
+  let ts := tkeys.map (fun ks =>
+    let vals := sortStrings (ms.flatMap (fun m => (m.timers.filter (fun e => e.1.1 ++ " " ++ e.1.2 == ks)).flatMap (fun e => e.2.values.map tokOfFloat)))
+    let samp := (ms.flatMap (fun m => (m.timers.filter (fun e => e.1.1 ++ " " ++ e.1.2 == ks)).map (·.2.sampled))).foldl (· + ·) 0.0
+    s!"t {ks} {vals.length} {unwords vals} {tokOfFloat samp}")
+  let ss := skeys.map (fun ks =>
+    let mem := sortStrings (dedupS (ms.flatMap (fun m => (m.sets.filter (fun e => e.1.1 ++ " " ++ e.1.2 == ks)).flatMap (·.2.members))))
+    s!"s {ks} {mem.length} {unwords mem}")
+  let all := sortStrings (cs ++ ts ++ ss)
+  if all.isEmpty then "TOTALS -" else "TOTALS " ++ " , ".intercalate all
 
 def runModel (line : String) : String :=
   match parseCase line with
   | none => "BAD_CASE"
   | some c =>
+    if isFree c then
+      -- C01_quiescent: whatever the interleaving, the flushed totals are the arrived totals
+      let s := run floatOps (oracle c) c.n (init c.n) (c.items.flatMap (fun it => match it with | .arrive ds => [Action.arrive ds] | _ => []))
+      totalsOf s.arrived
+    else
     let (_, outs) := c.items.foldl (fun (acc : State Float × List String) it =>
       let s := acc.1
       let s' := run floatOps (oracle c) c.n s (actionsOf c it)
       match it with
       | .arrive _ => (s', acc.2)
+      | .free _ _ => (s', acc.2)
       | .flush _ =>
         let newViews := s'.flushed.drop s.flushed.length
         let rendered := sortStrings (newViews.map (fun p => s!"{p.1}={renderMap (viewOf p.2)}"))
@@ -105,6 +136,13 @@ def spec (caseLine implLine : String) : String :=
   | none => "BAD_CASE"
   | some c =>
     if implLine.startsWith "PANIC" || implLine.startsWith "HANG" then s!"FAIL crashed-or-hung {implLine.take 80}" else
+    if isFree c then
+      -- expected totals computed from the datapoints directly (not through Receive/Merge)
+      let dps := c.items.flatMap (fun it => match it with | .arrive ds => ds | _ => [])
+      let singles := dps.map (fun d => MM.single floatOps d)
+      if implLine = totalsOf singles then "ok"
+      else "FAIL free-running totals over all flushes differ from what was sent (lost, duplicated or phantom data)"
+    else
     let flushOps := if implLine = "-" then [] else implLine.splitOn " | "
     let nFlush := (c.items.filter (fun it => match it with | .flush _ => true | _ => false)).length
     if flushOps.length ≠ nFlush then s!"FAIL flush-count got {flushOps.length} flush outputs for {nFlush} flushes" else
